@@ -149,6 +149,24 @@ def registry_law(run, reg: dict, res, facts) -> None:
                       f"duplicate platforms: {facts['dup_platforms']}", {"kind": "registry-law", "facts": facts})
     if facts["pairs"] != sum(len(v) for v in reg.values()):
         raise MachineryError("registry export and TLC disagree on the number of registered pairs")
+    # the registry against the listing in the source text (read with ast, independent of how the module builds its sets): a board id
+    # the source lists under a platform is registered for it - the real validate_platform_board accepts it - and nothing else is
+    listing = pio_rec.source_listing()
+    run.cov["source_listing"] = None if listing is None else {p: len(b) for p, b in listing.items()}
+    if listing is not None:
+        pio = pio_rec.pio_module()
+        for plat, ids in sorted(listing.items()):
+            for b in ids:
+                run.count("listed-board-accepted")
+                try:
+                    pio.validate_platform_board(pio_rec.newstr(plat), pio_rec.newstr(b))
+                except ValueError as e:
+                    run.violation(f"board {b!r} is listed under platform {plat!r} in the source of the registry but validation rejects the pair: {str(e)[:120]}",
+                                  {"kind": "listed-board-rejected", "platform": plat, "board": b})
+            extra = sorted(set(reg.get(plat, [])) - set(ids))
+            if extra:
+                run.violation(f"boards registered for {plat!r} that its listing does not contain: {extra[:10]}",
+                              {"kind": "registered-not-listed", "platform": plat, "boards": extra[:50]})
 
 
 def registry_rows(run, regfile) -> list:
@@ -314,7 +332,7 @@ def project_half(run, reg: dict, regfile, plats, boards, gen, liblists) -> None:
                           f"outside={r['outside'][:3]}",
                           {"kind": "project", "case": c, "observed": r, "clause": v["clause"]})
     run.cov["project_cases"] = kinds
-    ex = next(t for c, t in zip(cases, traces) if c["kind"] == "board" and "-" in c["board"])
+    ex = next((t for c, t in zip(cases, traces) if c["kind"] == "board" and "-" in c["board"]), traces[0])
     run.sample({"write_project": {k: ex["ev"][0][k] for k in ("platform", "board", "port", "libs", "out", "ini", "after", "outside")}})
 
 
